@@ -98,20 +98,21 @@ Definition fmt_int (z : Z) : str :=
   end.
 
 (* strconv.ParseInt(s, 10, 64): optional sign, at least one digit, only digits, value in range *)
+Definition parse_digits (neg : bool) (ds : str) : option Z :=
+  match ds with
+  | [] => None
+  | _ => match bytes_to_uint ds with
+         | None => None
+         | Some d => let z := if neg then Z.of_int (Neg d) else Z.of_int (Pos d) in
+                     if in_int64 z then Some z else None
+         end
+  end.
+
 Definition parse_int64 (s : str) : option Z :=
-  let go (neg : bool) (ds : str) :=
-    match ds with
-    | [] => None
-    | _ => match bytes_to_uint ds with
-           | None => None
-           | Some d => let z := if neg then Z.of_int (Neg d) else Z.of_int (Pos d) in
-                       if in_int64 z then Some z else None
-           end
-    end in
   match s with
-  | x2b :: r => go false r
-  | x2d :: r => go true r
-  | _ => go false s
+  | x2b :: r => parse_digits false r
+  | x2d :: r => parse_digits true r
+  | _ => parse_digits false s
   end.
 
 (* strconv.ParseUint(s, 10, 8) *)
